@@ -664,3 +664,73 @@ Print Assumptions C05_repair_max_src.
 Print Assumptions C05_repair_max_any_prefix_src.
 Print Assumptions C05_repair_intact_complete_throttled_src.
 Print Assumptions C05_example_intact_src_premises.
+
+(* ================= work package `carry2`: monotonicity about the GENERATED convert_to_archive =================
+   Two runs of the translated function (gen/Src3r.v over the translated ArchiveWriter of gen/Src2.v) on cuts n <= m of
+   the same body, through ANY two RdBounded sources refining the cuts (different sources, different read sizes,
+   different fuels): both return Ok and every file recovered at n is a prefix of the file recovered at m.
+   RepairProofs6.repair_monotone through CarryRepair.conv_of_repair (theories/Carry2Misc.v). *)
+From MLA Require Carry2Misc.
+Theorem C05_repair_monotone_src {LIM : Limit} :
+  forall FNMAX CACHE : N, FNMAX < 2 ^ 64 -> 0 < CACHE ->
+  forall TS TC TA TE : N,
+    TS <> TC /\ TS <> TA /\ TS <> TE /\ TC <> TA /\ TC <> TE /\ TA <> TE ->
+  forall H : bytes -> bytes, (forall x, len (H x) = 32) ->
+  forall (bl : list block) (trailer : bytes),
+    wf_blocks FNMAX H bl -> In BEnd bl \/ trailer = [] ->
+  forall (n m : N) (S1 : Stream) (R1 : st S1 -> N -> Prop) (s1 : st S1) (fuel1 : nat)
+         (S2 : Stream) (R2 : st S2 -> N -> Prop) (s2 : st S2) (fuel2 : nat),
+    RdBounded S1 -> RdBounded S2 -> n <= m ->
+    Refines S1 (takeN n (body TS TC TA TE bl ++ trailer)) R1 -> R1 s1 0 -> (N.to_nat n < fuel1)%nat ->
+    Refines S2 (takeN m (body TS TC TA TE bl ++ trailer)) R2 -> R2 s2 0 -> (N.to_nat m < fuel2)%nat ->
+    snd (Src3r.convert_to_archive FNMAX CACHE TS TC TA TE H (footer_ser (fun f => f)) (fun _ => Ok tt) S1
+           (block_from FNMAX TS TC TA TE S1) fuel1 s1 aw_init) <> Err EDeser ->
+    snd (Src3r.convert_to_archive FNMAX CACHE TS TC TA TE H (footer_ser (fun f => f)) (fun _ => Ok tt) S2
+           (block_from FNMAX TS TC TA TE S2) fuel2 s2 aw_init) <> Err EDeser ->
+    exists (l1 : Src3r.Locals S1) (e1 : Src3r.FailSafeReadError) (obl1 : list block)
+           (l2 : Src3r.Locals S2) (e2 : Src3r.FailSafeReadError) (obl2 : list block),
+      Src3r.convert_to_archive FNMAX CACHE TS TC TA TE H (footer_ser (fun f => f)) (fun _ => Ok tt) S1
+        (block_from FNMAX TS TC TA TE S1) fuel1 s1 aw_init = (l1, Ok e1) /\
+      good_output FNMAX TS TC TA TE H (absW (Src3r.l_output S1 l1)) obl1 /\
+      Src3r.convert_to_archive FNMAX CACHE TS TC TA TE H (footer_ser (fun f => f)) (fun _ => Ok tt) S2
+        (block_from FNMAX TS TC TA TE S2) fuel2 s2 aw_init = (l2, Ok e2) /\
+      good_output FNMAX TS TC TA TE H (absW (Src3r.l_output S2 l2)) obl2 /\
+      forall name, prefix (content_of (files_of obl1) name) (content_of (files_of obl2) name).
+Proof. exact Carry2Misc.repair_monotone_src. Qed.
+
+(* non-vacuity THROUGH THE GENERATED CODE: the archive of C05_example_intact cut at 40 (through a source
+   delivering at most 3 bytes per read) and at 70 (from memory): file [97] recovered at 40 is a prefix of
+   what is recovered at 70; and the premises of the theorem are met by this pair *)
+Example C05_example_monotone_src :
+  let conv S := Src3r.convert_to_archive 48 4 0 1 254 255 ex_H (footer_ser (LIM := MLAGen.Src.BINCODE_MAX_DESERIALIZE_prod) (fun f => f))
+                  (fun _ => Ok tt) S (block_from 48 0 1 254 255 S) in
+  match conv (Throttled (takeN 40 ex_stream)) 200%nat (0, [3]) aw_init, conv (Cursor (takeN 70 ex_stream)) 200%nat 0 aw_init with
+  | (l1, Ok e1), (l2, Ok e2) =>
+    exists k1 k2, (k1 < k2)%nat /\
+      firstn k1 (Src2.dest (Src3r.l_output _ l1)) = firstn k1 (Src2.dest (Src3r.l_output _ l2)) /\
+      fst (status_of e1) = FEofNextBlock /\ fst (status_of e2) = FEofNextBlock
+  | _, _ => False
+  end.
+Proof. vm_compute. exists 30%nat, 40%nat. repeat split; try reflexivity. lia. Qed.
+Example C05_example_monotone_src_premises :
+  exists l1 e1 obl1 l2 e2 obl2,
+    Src3r.convert_to_archive 48 4 0 1 254 255 ex_H (footer_ser (LIM := MLAGen.Src.BINCODE_MAX_DESERIALIZE_prod) (fun f => f)) (fun _ => Ok tt)
+      (Throttled (takeN 40 ex_stream)) (block_from 48 0 1 254 255 (Throttled (takeN 40 ex_stream))) 200 (0, [3]) aw_init = (l1, Ok e1) /\
+    Src3r.convert_to_archive 48 4 0 1 254 255 ex_H (footer_ser (LIM := MLAGen.Src.BINCODE_MAX_DESERIALIZE_prod) (fun f => f)) (fun _ => Ok tt)
+      (Cursor (takeN 70 ex_stream)) (block_from 48 0 1 254 255 (Cursor (takeN 70 ex_stream))) 200 0 aw_init = (l2, Ok e2) /\
+    good_output (LIM := MLAGen.Src.BINCODE_MAX_DESERIALIZE_prod) 48 0 1 254 255 ex_H (absW (Src3r.l_output _ l1)) obl1 /\
+    good_output (LIM := MLAGen.Src.BINCODE_MAX_DESERIALIZE_prod) 48 0 1 254 255 ex_H (absW (Src3r.l_output _ l2)) obl2 /\
+    forall name, prefix (content_of (files_of obl1) name) (content_of (files_of obl2) name).
+Proof.
+  destruct (C05_repair_monotone_src (LIM := MLAGen.Src.BINCODE_MAX_DESERIALIZE_prod) 48 4 ltac:(lia) ltac:(lia) 0 1 254 255
+              ltac:(repeat split; discriminate) ex_H ex_H_len ex_bl ex_trailer C02_example_wf (or_introl ex_bl_end)
+              40 70 (Throttled (takeN 40 ex_stream)) _ (0, [3]) 200%nat (Cursor (takeN 70 ex_stream)) _ 0 200%nat
+              (RdBounded_throttled _) (RdBounded_cursor _) ltac:(lia)
+              (throttled_refines _) ltac:(split; [reflexivity | apply N.le_0_l]) ltac:(lia)
+              (cursor_refines _) ltac:(split; [reflexivity | apply N.le_0_l]) ltac:(lia)
+              ltac:(vm_compute; discriminate) ltac:(vm_compute; discriminate))
+    as (l1 & e1 & obl1 & l2 & e2 & obl2 & H1 & G1 & H2 & G2 & Hp).
+  exists l1, e1, obl1, l2, e2, obl2. auto.
+Qed.
+Print Assumptions C05_repair_monotone_src.
+Print Assumptions C05_example_monotone_src_premises.
